@@ -266,6 +266,12 @@ func (c *conn) handleMutate(in *inEnvelope) error {
 	c.mu.Lock()
 	defer c.mu.Unlock()
 
+	// A mutation shares the id space of subscriptions: replacing a live entry would
+	// orphan its rerunner, which then keeps running and writing forever.
+	if _, ok := c.subscriptions[id]; ok {
+		return NewSafeError("duplicate subscription")
+	}
+
 	tags := map[string]string{"url": c.url, "query": mutate.Query, "queryVariables": mustMarshalJson(mutate.Variables), "id": id}
 
 	query, err := Parse(mutate.Query, mutate.Variables)
